@@ -375,6 +375,10 @@ pub fn gen_stress(rng: &mut Rng, small: bool) -> StressCfg {
                 roles,
                 nth: 1 + rng.below(if small { 20 } else { 400 }) as u32,
                 events: 10 + rng.below(300) as u32,
+                until: None,
+                gate: None,
+                cap_us: 200,
+                max_pauses: 0,
             });
         }
     }
